@@ -130,7 +130,8 @@ Definition reset_params (s : vs) : vs :=
 Definition mark_global (s : vs) : vs :=
   push ECtx (mkV (stk s) (csfi s) (length (stk s)) true).
 
-(* findEntry, cpp:439-517. Local loop over indices nElems-1 .. 1 of the list l (top first): returns the
+(* findEntry, cpp:439-521 (the global search also requires m_globalStackFrameIndex <= size: ~0u before the
+   global frame exists). Local loop over indices nElems-1 .. 1 of the list l (top first): returns the
    binding found and the list with the entry activated (eParam -> eActiveParam when fIsParam) *)
 Fixpoint find_local (n : N) (isParam : bool) (l : list entry) : option N * list entry :=
   match l with
@@ -173,7 +174,7 @@ Definition find_entry (n : N) (isParam searchGlobal : bool) (s : vs) : option N 
   | (Some b, l') => (Some b, mkV (firstn k (stk s) ++ l') (csfi s) (gsfi s) (gmarked s))
   | (None, l') =>
       let s' := mkV (firstn k (stk s) ++ l') (csfi s) (gsfi s) (gmarked s) in
-      if negb isParam && searchGlobal && Nat.ltb 1 (gsfi s)
+      if negb isParam && searchGlobal && Nat.ltb 1 (gsfi s) && Nat.leb (gsfi s) (length (stk s))
       then (find_global n (skipn (length (stk s) - gsfi s) (stk s)), s')
       else (None, s')
   end.
